@@ -276,9 +276,9 @@ def run_check(prop, tier, seed):
             harness_error("build of variant %s failed (hook or harness no longer compiles against the repository)" % v)
     # determinism self-check on this property's own profile
     det_ok, det_msg = determinism_check(prop, tier, plan[0][0] if plan[0][0] != "E" else "A", seed, tmp, n=int(os.environ.get("HBSIM_DET_N", "300")))
-    if not det_ok:
-        harness_error("determinism self-check failed: " + det_msg)
-    log("determinism: " + det_msg)
+    # a failed self-check on a changed tree usually means that the tree reads memory it does not own; the main
+    # batch then reports the violation itself. Only if nothing is found is it a harness error.
+    log("determinism: " + (det_msg if det_ok else "FAILED: " + det_msg))
     batches = []
     cap_s = float(os.environ.get("HBSIM_BUDGET_S", "0"))
     for v, n in plan:
@@ -449,6 +449,8 @@ def run_check(prop, tier, seed):
         log("also seen (not minimised): " + a)
     if reported:
         return 1
+    if not det_ok:
+        harness_error("determinism self-check failed and no violation was found: " + det_msg)
     if missing:
         harness_error("required probes never fired in this tier: %s (workload bug, not a pass)" % missing)
     log("OK property=%s held on everything explored" % prop)
